@@ -207,6 +207,11 @@ def run(prog: Program, rep: Report, tier: str):
     rule_planar_inverse(prog, rep, R="C02.planar-inverse")
     from .c09 import rule_bnaf_logjac_blocks
     rule_bnaf_logjac_blocks(prog, rep, "C02.bnaf-blocks")
+    # outside its interval the spline is the identity, so the reported derivative must be 1 exactly on the complement of
+    # the mask that selects the in-bounds transform (same closed interval, tested on the method input, not on the
+    # restricted operand) - the branch-selection half of "log-det = true log|dy/dx|"
+    from .c07 import rule_spline
+    rule_spline(prog, rep, R="C02.spline-branches")
     # sum of the transformer log-dets is log|det J| only for a triangular Jacobian: the last MADE layer is strict
     from .c09 import rule_made_masks
     rule_made_masks(prog, rep, R="C02.triangular")
